@@ -66,6 +66,7 @@ type Frame struct {
 	Spec    *FuncSpec // contract being verified for this frame (top frame) or nil when inlined
 	Entry   *Snapshot
 	Params  map[string]Value
+	Extra   map[string]TV // additional names visible to the contract of this frame (implementer checks)
 	Panicky bool
 	InDefer bool      // frame runs a deferred call: on return resume RunDefers in caller
 	OnRet   func(st *State, fr *Frame, res Value) // optional hook when the frame returns
